@@ -104,7 +104,7 @@ TECHNIQUE += ('; fifth round: the decision region of C17-CHUNK is found by def-u
 DECIDES += (' Round 5: (CHUNK) the table now covers every statement of the comparison region -- a guard hoisted in front of the comparison, a comparison split in two statements, a flag local, an '
             'overwritten size -- over declared group x format group x (declared size equal / larger / smaller) x fields; (CMPTAB) __pyx_typeinfo_cmp explored as a whole for every (group of a) x '
             '(group of b) x (size equal / larger / smaller) x (signedness of plain char): scalar descriptors compare equal only with the same size and the same group or a char on either side.')
-NOT_DECIDED += (' Array members in __pyx_typeinfo_cmp (C17-CMPDIM reports the unmodified tree, pending finding); a verdict of 0 of the shortcut is never a finding (the format check then runs).')
+NOT_DECIDED += (' Array members in __pyx_typeinfo_cmp (decided by C17-CMPDIM since the repair a5db7cc86); a verdict of 0 of the shortcut is never a finding (the format check then runs).')
 MUTATIONS += [
     ('Cython/Utility/Buffer.c', 'seed C17e: the char exemption hoisted in front of the comparison, its `type->size == size` lost', 'C17-CHUNK mismatch-accepted:both / :size'),
     ('Cython/Utility/Buffer.c', 'ProcessTypeChunk: complex descent hoisted; `group != H &&` guard; split with the exemption in the group half; either_char flag bypass; size overwritten for chars; '
@@ -834,9 +834,10 @@ def run(ctx):
     rules.append(sC17.rule_chunk(ctx, _func, set(produced_letters(ctx)[2]), returned))
     rules.append(sC17.rule_cmp(ctx, _func, funcs))
     rules.append(sC17.rule_cmptab(ctx, _func, set(produced_letters(ctx)[2])))
-    # pending finding (FINDING_2 of strengthening session H2, round 5): sC17.rule_cmpdim (C17-CMPDIM) reports the unmodified tree - the char exemption of __pyx_typeinfo_cmp
+    rules.append(sC17.rule_cmpdim(ctx, _func, set(produced_letters(ctx)[2])))
+    # armed after the repair a5db7cc86 (FINDING_2 of strengthening session H2, round 5): sC17.rule_cmpdim (C17-CMPDIM) reported the unmodified tree - the char exemption of __pyx_typeinfo_cmp
     # returns `a->size == b->size` before the dimensionality / array extents are compared, so `char c[2]` equals `char c` (and `unsigned char c[3]`) and a struct view is
-    # re-acquired as another struct dtype without the format check.  Register it (rules.append(sC17.rule_cmpdim(ctx, _func, set(produced_letters(ctx)[2])))) once the repair is in.
+    # re-acquired as another struct dtype without the format check.
     exp_d = _func(ctx, '__Pyx_TypeInfoToFormat')
     readers = ['\n'.join(d.body for d in funcs), _func(ctx, '__pyx_typeinfo_cmp').body, exp_d.body, fsec.raw]
 
